@@ -307,10 +307,12 @@ def updateRelationsGtf (cfg : Cfg) (db : Db) (auto : Dict Nat) : Py (Db × Dict 
       match db.insert row with
       | .ok db => pure (db, auto)
       | .error _ =>
-        let (fixed, _, db, auto) ← doMerge cfg db auto f id .merge
-        match fixed with
-        | some fx => pure (db.modifyRow (fx.id.getD id) (fun r => { r with attrs := fx.attrs }), auto)
-        | none => pure (db, auto)) (db, auto)
+        let (fixed, final, db, auto) ← doMerge cfg db auto f id .merge
+        -- only a real merge writes (`if final_strategy == "merge"`); a derived feature that was merely
+        -- renamed to `<id>_n` is not stored and must not touch the row that may carry that id
+        match final, fixed with
+        | .merge, some fx => pure (db.modifyRow (fx.id.getD id) (fun r => { r with attrs := fx.attrs }), auto)
+        | _, _ => pure (db, auto)) (db, auto)
 
 /-- `_finalize`: directives, one meta row, counters (`INSERT OR REPLACE`) -/
 def finalize (db : Db) (dialect : Dialect) (directives : List Str) (auto : Dict Nat) : Db :=
